@@ -680,7 +680,9 @@ func checkLexEmoves(c *Ctx, p *Prog, rule string) {
 					return VOpq{"(" + render(args[0]) + " ++ [" + strings.Join(r.VarargElems(args[1]), ",") + "])"}, nil
 				},
 			}
-			reg := &Region{Fn: fn, Start: hs[0], Cuts: cutSet(hs[0]), Summaries: sm, PhiInputs: map[string]Val{"items": VOpq{"RES"}}}
+			reg := &Region{Fn: fn, Start: hs[0], Cuts: cutSet(hs[0]), Summaries: sm, PhiInputs: map[string]Val{"items": VOpq{"RES"}},
+				// the item of this round was not processed before (R09.8 decides the other case)
+				LookupVal: func(r *Run, m, k Val, t types.Type) (Val, Val) { return boolConst(false), boolConst(false) }}
 			pushes = nil
 			out := InterpretSafe(reg, &MapWorld{Ints: map[string]int64{"NSTACK": 2}})
 			got := strings.Join(pushes, "; ")
@@ -689,11 +691,70 @@ func checkLexEmoves(c *Ctx, p *Prog, rule string) {
 			stepOb(c, out, rule, "lexer Item.Emoves round: "+wd.name, ok, fmt.Sprintf("%s pushes=[%s] results=%s %s; required push [%s], results %s", termOf(out), got, out.NextPhi["items"], out.Undecided, wd.wantPush, wd.wantRes), p.FnPos(fn))
 		}
 		out := InterpretSafe(&Region{Fn: fn, Start: hs[0], Cuts: cutSet(hs[0]), PhiInputs: map[string]Val{"items": VOpq{"RES"}},
+			LookupVal: func(r *Run, m, k Val, t types.Type) (Val, Val) { return boolConst(false), boolConst(false) },
 			Summaries: map[string]Summary{
 				"*.NewStack": func(r *Run, cc *ssa.CallCommon, args []Val) (Val, error) { return VOpq{"STACK"}, nil },
 				"*.Push":     func(r *Run, cc *ssa.CallCommon, args []Val) (Val, error) { return VOpq{"STACK"}, nil },
 				"*.Len":      func(r *Run, cc *ssa.CallCommon, args []Val) (Val, error) { return VSym{Name: "NSTACK"}, nil },
 			}}, &MapWorld{Ints: map[string]int64{"NSTACK": 0}})
 		stepOb(c, out, rule, "lexer Item.Emoves: worklist empty", termOf(out) == "return RES", termOf(out)+" "+out.Undecided, p.FnPos(fn))
+	}
+}
+
+// R09.8: the ε-move worklist of an item cannot cycle. The items of one production are finitely many
+// (a bounded stack of positions), so it is enough that no item is processed twice: every round must
+// consult and extend a set of processed items keyed by the item's identity before it pushes anything.
+func checkEmovesTerminates(c *Ctx, p *Prog, rule string) {
+	fn := p.Func(lexItemsPkg, "*Item.Emoves")
+	if fn == nil {
+		c.Undecided(rule, "lexer Item.Emoves terminates", "function not found")
+		return
+	}
+	hs := loopHeaders(fn)
+	if len(hs) != 1 {
+		c.Undecided(rule, "lexer Item.Emoves terminates", "expected one loop (the worklist)", p.FnPos(fn))
+		return
+	}
+	itemT := types.NewPointer(pkgType(p, lexItemsPkg, "Item"))
+	for _, seen := range []bool{true, false} {
+		var pushes, lookups []string
+		sm := map[string]Summary{
+			"*.NewStack": func(r *Run, cc *ssa.CallCommon, args []Val) (Val, error) { return VOpq{"STACK"}, nil },
+			"*.Push": func(r *Run, cc *ssa.CallCommon, args []Val) (Val, error) {
+				pushes = append(pushes, render(args[1]))
+				return VOpq{"STACK"}, nil
+			},
+			"*.Len": func(r *Run, cc *ssa.CallCommon, args []Val) (Val, error) { return VSym{Name: "NSTACK"}, nil },
+			"*.Pop": func(r *Run, cc *ssa.CallCommon, args []Val) (Val, error) {
+				return VIface{Dyn: itemT, V: VPtr{r.NewObj("IT", false), ""}}, nil
+			},
+			"*.HashKey":        func(r *Run, cc *ssa.CallCommon, args []Val) (Val, error) { return VOpq{"key(" + render(args[0]) + ")"}, nil },
+			"*.Reduce":         func(r *Run, cc *ssa.CallCommon, args []Val) (Val, error) { return boolConst(false), nil },
+			"*.nextIsTerminal": func(r *Run, cc *ssa.CallCommon, args []Val) (Val, error) { return boolConst(false), nil },
+			"*.top": func(r *Run, cc *ssa.CallCommon, args []Val) (Val, error) {
+				return VTuple{VIface{Dyn: types.NewPointer(astType(p, "LexRepPattern")), V: VPtr{r.NewObj("NODE", false), ""}}, VSym{Name: "POS"}}, nil
+			},
+			"*.eMovesRepPattern": func(r *Run, cc *ssa.CallCommon, args []Val) (Val, error) { return VOpq{"MOVES"}, nil },
+		}
+		reg := &Region{Fn: fn, Start: hs[0], Cuts: cutSet(hs[0]), Summaries: sm, PhiInputs: map[string]Val{"items": VOpq{"RES"}},
+			AtStart: func(r *Run, fr *frame) { pushes, lookups = nil, nil },
+			LookupVal: func(r *Run, m, k Val, t types.Type) (Val, Val) {
+				lookups = append(lookups, render(m)+"["+render(k)+"]")
+				return boolConst(seen), boolConst(seen)
+			}}
+		out := InterpretSafe(reg, &MapWorld{Ints: map[string]int64{"NSTACK": 2}})
+		npush := len(pushes)
+		up := evs(out, "mapupdate")
+		keyed := len(lookups) == 1 && strings.Contains(lookups[0], "IT")
+		var ok bool
+		var want string
+		if seen {
+			want = "an item that was processed before is dropped: nothing pushed, results unchanged"
+			ok = termOf(out) == "cut" && keyed && npush == 0 && out.NextPhi["items"] == "RES"
+		} else {
+			want = "a new item is entered into the set of processed items (under the key it was looked up with) before its successors are pushed"
+			ok = termOf(out) == "cut" && keyed && npush == 1 && strings.HasPrefix(up, "mapupdate "+lookups[0]+" = ")
+		}
+		stepOb(c, out, rule, fmt.Sprintf("lexer Item.Emoves round: item processed before=%v", seen), ok, fmt.Sprintf("%s lookups=%v updates=[%s] pushes=%d results=%s %s; required: %s — otherwise a bracket whose body can match the empty string (%s) makes the worklist cycle for ever", termOf(out), lookups, up, npush, out.NextPhi["items"], out.Undecided, want, "'x' { [ 'a' ] } 'y'"), p.FnPos(fn))
 	}
 }
